@@ -195,6 +195,7 @@ def main(run: core.Run) -> None:
             "gate:nondeterministic", "gate:controlflow", "subst:alias", "out:replaced", "if:then", "if:else",
             "dropout:2out", "castlike:cast", "cast:identity", "reshape:identity", "expand:identity", "concat:dropzero",
             "shape:const", "gather:const", "seqat:identity", "clear:initializer"]
-    missing = [b for b in must if hist[b] == 0]
+    missing = [b for b in must if hist[b] == 0] + [t for t in ("loop", "scan", "expand_othershape", "const_optional_gap",
+                                                                "initinput_optional_operand", "branch_alias_outer") if tagc[t] == 0]
     if missing:
         raise core.Infra(f"generator degenerated: model branches never reached: {missing}")
